@@ -66,7 +66,7 @@ def run_history(job):
     r = random.Random(job["key"])
     rec = {"key": job["key"], "invs": [], "truncated": False, "develop": None, "n_edits": job["n_edits"],
            "j1": bool(job.get("j1")), "kinds": job.get("kinds"), "failrevert": bool(job.get("failrevert")),
-           "force_dev": bool(job.get("force_dev")), "features": job.get("features")}
+           "force_dev": bool(job.get("force_dev")), "features": job.get("features"), "fault_kind": job.get("fault_kind")}
     if time.time() > job["deadline"]:
         rec["truncated"] = True
         return rec
@@ -120,6 +120,7 @@ def run_history(job):
                 tgt = e[1] if len(e) > 1 and e[1] in names else r.choice(names)
                 kind = r.choice(["build", "build", "package"])
                 mode = r.choice(["exit", "kill", "term"])
+                kind = job.get("fault_kind") or kind
                 bs.render(proj, simA.root)
                 simA.clear_faults()
                 simA.set_fault(kind, tgt, mode)
@@ -221,7 +222,7 @@ def judge_history(ctx, rec):
     """the property's own statement on one recorded history"""
     case = {"key": rec["key"], "n_edits": rec.get("n_edits"), "j1": rec.get("j1"), "kinds": rec.get("kinds"),
             "failrevert": rec.get("failrevert"), "force_dev": rec.get("force_dev"), "npkgs": rec.get("npkgs"),
-            "require": rec.get("require"),
+            "require": rec.get("require"), "fault_kind": rec.get("fault_kind"),
             "develop": rec.get("develop"), "jobs": rec.get("jobs"), "edits": rec.get("edits")}
     for inv in rec["invs"]:
         nontrivial = any(e[0] in ("run", "emptyDir") for e in inv["log"])
@@ -320,7 +321,8 @@ def oracle(ctx):
                          deadline=far, npkgs=3, require="multivariant", force_dev=True, kinds=["xenv"], j1=True))
     for k in range(ctx.scale(4, 12)):
         must.append(dict(repo=ctx.repo, tmp=ctx.tmp, key="%s-%d-must-fr-%d" % (ctx.prop, ctx.seed, k), n_edits=1,
-                         deadline=far, npkgs=2, failrevert=True, kinds=["src-modify", "src-add"], j1=True))
+                         deadline=far, npkgs=2, failrevert=True, kinds=["src-modify", "src-add"], j1=True,
+                         fault_kind=("build" if k % 2 == 0 else None)))
     recs = ctx.parallel(run_history, must + jobs)
     _CACHE["recs"] = recs
     for rec in recs:
@@ -415,7 +417,8 @@ def correspond(ctx):
 def replay(ctx, case):
     job = dict(repo=ctx.repo, tmp=ctx.tmp, key=case["key"], n_edits=case.get("n_edits") or 5, j1=case.get("j1"),
                kinds=case.get("kinds"), failrevert=case.get("failrevert"), force_dev=case.get("force_dev"),
-               npkgs=case.get("npkgs"), require=case.get("require"), deadline=time.time() + 900)
+               npkgs=case.get("npkgs"), require=case.get("require"), fault_kind=case.get("fault_kind"),
+               deadline=time.time() + 900)
     rec = run_history(job)
     judge_history(ctx, rec)
 
